@@ -60,16 +60,30 @@ func (g *Gen) styleDec(s string, p int) string {
 		}
 		// move the decimal point by k
 		k := g.R.Range(1, 3)
+		if n := len(RatFloor(r).String()); n > 11 && g.R.Chance(0.6) {
+			k = Pick(g.R, []int{10, 10, 20})
+			if k >= n {
+				k = 10
+			}
+		}
 		x := new(big.Rat).Quo(r, RatInt(pow10(k)))
-		return FmtDec(x, 12) + fmt.Sprintf("e%d", k)
+		if !x.IsInt() && len(FmtDec(x, 40)) > 45 {
+			k = g.R.Range(1, 3)
+			x = new(big.Rat).Quo(r, RatInt(pow10(k)))
+		}
+		return FmtDec(x, 40) + Pick(g.R, []string{"e", "e+", "E"}) + fmt.Sprint(k)
 	case 3:
 		r, ok := ParseDec(s)
 		if !ok || r.Sign() == 0 {
 			return s
 		}
-		k := g.R.Range(1, 3)
+		k := Pick(g.R, []int{1, 2, 3, 10, 20})
 		x := new(big.Rat).Mul(r, RatInt(pow10(k)))
-		return FmtDec(x, 9) + fmt.Sprintf("E-%d", k)
+		m := FmtDec(x, 9)
+		if !strings.Contains(m, ".") && g.R.Chance(0.5) {
+			m += ".0" // a mantissa with a decimal point and an exponent that ends in a zero digit
+		}
+		return m + fmt.Sprintf("E-%d", k)
 	case 4:
 		return "+" + s
 	default:
